@@ -303,7 +303,11 @@ def gapedge_pair(rng):
 
 def cmp_pair(rng):
     k = rng.random()
-    if k < 0.07:
+    if k < 0.03:      # same sign and exponent field, one coefficient field >= 10^34 (denotes zero) against a canonical number / zero
+        e = expo(rng); s_ = rng.randint(0, 1)
+        x = (s_ << 127) | ((e + BIAS) << 113) | rng.choice([T34, T34 + 1, (1 << 113) - 1, rng.randint(T34, (1 << 113) - 1)])
+        y = fin(s_ if rng.random() < 0.8 else 1 - s_, rng.choice([0, 1, coeff(rng), T34 - 1]), e)
+    elif k < 0.07:
         x, y = gapedge_pair(rng)
     elif k < 0.15:
         x, y = wordscale_pair(rng)
@@ -527,7 +531,12 @@ def gen_toint(rng, n):
     for _ in range(n):
         t, w, sg = rng.choice(INT_TYPES); kind = rng.choice(INT_KINDS); xf = rng.choice(['', 'x'])
         k = rng.random()
-        if k < 0.12: x = int_limit_fewdigits(rng, w, sg)
+        if k < 0.06:      # pure fractions 0.ddd with q digits at exponent -q (and one or two integer digits): values around 1/2 and below
+            q = rng.randint(1, 34); lead = rng.choice(['1', '15', '2', '3', '4', '49', '499', '5', '50', '500', '51', '6', '9', '99'])
+            ds = (lead + ''.join(rng.choice('0000123456789') for _ in range(q)))[:q]
+            if rng.random() < 0.3: ds = (lead + '0' * q)[:q - 1] + rng.choice('01')
+            x = fin(rng.randint(0, 1), int(ds) or 1, -q - rng.choice([0, 0, 0, 1, -1]))
+        elif k < 0.12: x = int_limit_fewdigits(rng, w, sg)
         elif k < 0.20:   # integers written with many fractional zeros (scale 1..33): exactness tests per removed-digit count
             v = rng.choice([rng.randint(1, 10 ** rng.randint(1, 12)), rng.randint(1, 9)]); kz = rng.randint(1, 34 - ndig(v))
             x = fin(rng.randint(0, 1), v * 10 ** kz, -kz)
@@ -712,8 +721,34 @@ def gen_rem(rng, n):
 
 
 # ------------------------------------------------------------------------------------------------ C11 scaleb / logb / frexp
+def scaleb_underflow_pattern(rng):
+    """x * 10^n whose k low digits (1..34, often >= 20 so that the dropped fraction spans two 64-bit words) fall below the quantum
+    1E-6176, with the dropped part a tie, a tie + a little (5 0..0 sss), just below a tie, or zeros"""
+    k = rng.choice([rng.randint(1, 34), rng.randint(20, 34), rng.randint(23, 34)])
+    keep = rng.randint(0, 34 - k)
+    head = coeff(rng, keep) if keep else 0
+    kk = rng.random()
+    if kk < 0.25: tail = '5' + '0' * (k - 1)
+    elif kk < 0.55:
+        sss = str(rng.choice([1, rng.randint(1, 9999), 1059, 2118, 1616, 1578, 1973]))
+        tail = ('5' + '0' * max(0, k - 1 - len(sss)) + sss)[:k] if k > 1 else '6'
+    elif kk < 0.7: tail = '4' + '9' * (k - 1)
+    elif kk < 0.8: tail = '0' * k
+    else: tail = tail_digits(rng, k)
+    c = head * 10 ** k + int(tail)
+    if c == 0: c = 5 * 10 ** (k - 1)
+    e = rng.randint(-100, 100) if rng.random() < 0.5 else rng.randint(QMIN, QMAX)
+    nn = QMIN - k - e
+    return fin(rng.randint(0, 1), c % T34, e), nn
+
+
 def gen_scaleb(rng, n):
-    for _ in range(n):
+    for _ in range(n // 8):
+        op = rng.choice(['scaleb', 'ldexp', 'scalebln']); w = 64 if op == 'scalebln' else 32
+        x, nn = scaleb_underflow_pattern(rng)
+        nn = max(-2 ** (w - 1), min(2 ** (w - 1) - 1, nn))
+        yield line(op, rng.choice(MODES), status_in(rng), x, '%x' % (nn & ((1 << w) - 1)))
+    for _ in range(n - n // 8):
         op = rng.choice(['scaleb', 'ldexp', 'scalebln'])
         w = 64 if op == 'scalebln' else 32
         k = rng.random()
@@ -815,8 +850,11 @@ def gen_class(rng, n):
 
 def gen_noncanon_ops(rng, n):
     """every operation on a non-canonical operand (the model decodes it as the standard says) in each operand position"""
-    ops1 = ['sqrt', 'rint', 'nextup', 'nextdown', 'logb', 'ilogb', 'quantexp', 'quantum', 'fmt', 'encode', 'to_i64_rnint', 'to_u32_xfloor', 'modf', 'frexp', 'llquantexp']
-    ops2 = ['add', 'sub', 'mul', 'div', 'quantize', 'rem', 'fmod', 'minnum', 'maxmag', 'nextafter', 'samequantum', 'totalorder', 'totalordermag', 'fdim', 'ops', 'copysign']
+    ops1 = ['sqrt', 'rint', 'nearbyint', 'rint_ne', 'rint_na', 'rint_dn', 'rint_up', 'rint_tz', 'nextup', 'nextdown', 'logb', 'ilogb', 'quantexp', 'quantum', 'fmt', 'encode',
+            'modf', 'frexp', 'llquantexp', 'lrint', 'llrint', 'lround', 'llround', 'class', 'isx', 'abs', 'neg', 'copy', 'serde'] + \
+           ['to_%s_%s%s' % (t, xf, k) for t in ('i32', 'u32', 'i64', 'u64') for xf in ('', 'x') for k in INT_KINDS]
+    ops2 = ['add', 'sub', 'mul', 'div', 'quantize', 'rem', 'fmod', 'minnum', 'maxnum', 'minmag', 'maxmag', 'nextafter', 'nexttoward', 'samequantum', 'totalorder', 'totalordermag',
+            'fdim', 'ops', 'copysign', 'hasheq', 'hashset', 'o_add', 'o_mul', 'o_rem']
     for _ in range(n):
         x = noncanon_of(rng, special(rng)); k = rng.random()
         if k < 0.35: yield line(rng.choice(ops1), rng.choice(MODES), status_in(rng), x)
@@ -963,6 +1001,10 @@ def literal_wordcarry(rng):
 
 
 def literal(rng, maxd=100):
+    if maxd > 100 and rng.random() < 0.15:      # more digits than the scanner's buffer, in each of the three scanner loops
+        nd = rng.randint(95, maxd); ds = ''.join(rng.choice('0123456789') for _ in range(nd)).lstrip('0') or '7'
+        form = rng.choice(['0.' + ds, '.' + ds, '00.000' + ds, ds[:1] + '.' + ds[1:], ds + '.', ds[:50] + '.' + ds[50:]])
+        return rng.choice(['', '+', '-']) + form + rng.choice(['', 'E5', 'e-20', 'E+6100', 'E-6200'])
     if rng.random() < 0.15: return literal_underflow(rng, maxd)
     if rng.random() < 0.05: return literal_wordcarry(rng)
     nd = rng.choice([rng.randint(1, 34), rng.randint(1, 34), rng.randint(35, maxd), rng.randint(30, 40)])
@@ -1118,3 +1160,61 @@ def gen_fdim(rng, n):
     for _ in range(n):
         x, y = cmp_pair(rng) if rng.random() < 0.5 else pair_addsub(rng)
         yield line('fdim', rng.choice(MODES), status_in(rng), x, y)
+
+
+# ------------------------------------------------------------------------------------------------ C02 secondary configuration: tininess after rounding
+def pair_tiny_threshold(rng):
+    """exact product 10^(34+m) -+ t at exponent -6177-m: a hair below / above the smallest normal 10^-6143, so that rounding to 34 digits
+    with unbounded exponent does or does not carry up to it (the only place where tininess before and after rounding differ)"""
+    while True:
+        m = rng.randint(1, 6); B = rng.randint(10 ** m + 1, 10 ** (m + 1) - 1)
+        T = 10 ** (34 + m)
+        t = T % B + B * rng.choice([0, 0, 0, 1, 2, rng.randint(0, 10 ** m // B + 1)])
+        if rng.random() < 0.25: t = -((-T) % B)            # just above: T + |t|
+        P = T - t
+        if P % B: continue
+        A = P // B
+        if 0 < A < T34: break
+    e = QMIN - 1 - m + rng.choice([0, 0, 0, 0, 1, -1])
+    e1 = rng.randint(max(QMIN, e - QMAX), min(QMAX, e - QMIN)); e2 = e - e1
+    s1, s2 = rng.randint(0, 1), rng.randint(0, 1)
+    x, y = fin(s1, A, e1), fin(s2, B, e2)
+    return (x, y) if rng.random() < 0.5 else (y, x)
+
+
+def gen_tiny_after(rng, n):
+    for _ in range(n):
+        k = rng.random()
+        if k < 0.45:
+            x, y = pair_tiny_threshold(rng)
+            if rng.random() < 0.5: yield line('mul_ta', rng.choice(MODES), status_in(rng), x, y)
+            else:
+                z = fin(rng.randint(0, 1), 0, rng.choice([QMIN, QMIN + rng.randint(0, 40), expo(rng)])) if rng.random() < 0.6 else fin(rng.randint(0, 1), rng.choice([1, 2, 5]), QMIN)
+                yield line('fma_ta', rng.choice(MODES), status_in(rng), x, y, z)
+        elif k < 0.65:
+            x, y = pair_mul_underflow(rng); yield line('mul_ta', rng.choice(MODES), status_in(rng), x, y)
+        elif k < 0.85:
+            x, y, z = triple_fma(rng); yield line('fma_ta', rng.choice(MODES), status_in(rng), x, y, z)
+        else:
+            x, y = pair_mul(rng); yield line('mul_ta', rng.choice(MODES), status_in(rng), x, y)
+
+
+def gen_hashslice(rng, n):
+    """C20: hash_slice of two slices whose elements are pairwise equal values (other cohort member, other zero sign, other NaN) must feed
+    identical words to the Hasher; op hashsliceeq n x1..xn y1..yn"""
+    def twin(x):
+        d = decode(x)
+        if d[0] == 'nan': return nan(rng)
+        if d[0] == 'inf': return infinity(rng) & ~(1 << 127) | (x & (1 << 127))
+        _, s_, c, q = d
+        if c == 0: return fin(rng.randint(0, 1), 0, expo(rng))
+        cc, qq = c, q
+        if rng.random() < 0.5:
+            while cc % 10 == 0 and qq < QMAX and rng.random() < 0.8: cc //= 10; qq += 1
+        else:
+            while cc * 10 < T34 and qq > QMIN and rng.random() < 0.8: cc *= 10; qq -= 1
+        return fin(s_, cc, qq)
+    for _ in range(n):
+        k = rng.randint(0, 5); xs = [datum(rng, 0.35) for _ in range(k)]
+        ys = [twin(x) if rng.random() < 0.9 else datum(rng, 0.3) for x in xs]
+        yield line('hashsliceeq', 0, 0, '%x' % k, *(xs + ys))
